@@ -637,7 +637,7 @@ BATCH = 10     # split-generator points per case (keeps the number of Coq case i
 
 
 def generate(rng, tier):
-    nh, ng, batch = (800, 2200, BATCH) if tier == "quick" else (12000, 60000, 5 * BATCH)
+    nh, ng, batch = (650, 1700, BATCH) if tier == "quick" else (12000, 60000, 5 * BATCH)
     cases = boundary_cases() + [gen_hist(rng, tier) for _ in range(nh)]
     pts = gen_split_grid(rng) + [gen_split_case(rng) for _ in range(ng)]
     cases += [{"k": "gen", "pts": pts[i:i + batch]} for i in range(0, len(pts), batch)]
